@@ -16,7 +16,7 @@
    The code BEFORE proposed_fixes/C43-*.diff is refuted by the schedules that were reproduced on the
    old source with the thread controller (harness/props/C43.py re-runs them on the current code).
    Tie to /repo: harness/props/C43.py (K3, medium granularity, same-schedule comparison). *)
-From RxVerif Require Import Base.Prelude Core.Lts Core.LtsFacts Core.CombConc Core.CombConcFacts Core.CombConcFacts2.
+From RxVerif Require Import Base.Prelude Core.Lts Core.LtsFacts Core.CombConc Core.CombConcFacts Core.CombConcFacts2 Core.CombConcSplit.
 Local Open Scope nat_scope.
 
 Definition C43_statement {S} (c : @config (gsh S) pos sev cobs) : Prop :=
@@ -195,3 +195,82 @@ Example C43_witness_window_with_time_or_count :
   = [(1, CEnter DNext); (1, CUser DNext); (1, CExit DNext); (1, CEnter DNext); (1, CUser DNext); (1, CExit DNext);
      (0, CEnter DDone); (0, CUser DDone); (0, CExit DDone)].
 Proof. vm_compute. reflexivity. Qed.
+
+(* ---- the grammar as a CONSEQUENCE of mutual exclusion (Core/CombConcSplit.v) ------------------
+   The subscriber's AutoDetachObserver is unsynchronised: `if self.is_stopped: return` and the
+   callback (+ `self.is_stopped = True`) are two steps.  [gact2] refines the generic wrapper of
+   Core/CombConc.v accordingly (new yield point QW = "read False, callback not yet run"); the
+   operators' step functions are the SAME ones as above.  This yield point is finer than K3's
+   granularity: the split model is tied to /repo only through the atomic model, whose runs it
+   contains (C43_split_covers_atomic_model). *)
+Theorem C43_split_covers_atomic_model :
+  forall (S : Type) (ostep : nat -> S -> pos -> option (S * option pos)) st0 progs sched,
+  exists sched2, grun2 ostep st0 progs sched2 = liftc (grun ostep st0 progs sched).
+Proof. exact @split_covers. Qed.
+Print Assumptions C43_split_covers_atomic_model.
+
+(* ANY step-invariant J that implies "two threads inside the downstream observer are the same
+   thread" gives, for all programs and schedules, Next* (Err|Done)? at the subscriber's callbacks *)
+Theorem C43_split_grammar_from_exclusion :
+  forall (S : Type) (ostep : nat -> S -> pos -> option (S * option pos))
+         (J : @config (gsh S) pos2 sev cobs -> Prop) st0 progs,
+  J (init (GS None false st0) progs) ->
+  (forall c tid, J c -> J (tstep start2 (gact2 ostep) c tid)) ->
+  (forall c, J c -> excl2 c) ->
+  forall sched, let c := grun2 ostep st0 progs sched in
+  J c /\ gram (users (untag (c_log c))) = true.
+Proof. exact @split_gen. Qed.
+Print Assumptions C43_split_grammar_from_exclusion.
+
+(* the lock discipline (same two side conditions as C43_generic) is such an invariant *)
+Theorem C43_split_generic :
+  forall (S : Type) (ostep : nat -> S -> pos -> option (S * option pos)),
+  (forall tid st l st' q, ostep tid st l = Some (st', Some q) -> holds q = true -> holds l = true \/ is_acq l = true) ->
+  (forall tid st l st' h d k, ostep tid st l = Some (st', Some (PI h d k)) -> h = true) ->
+  forall st0 progs sched, split_statement (grun2 ostep st0 progs sched).
+Proof. intros S ostep H1 H2 st0 progs sched. exact (split_lock ostep H1 H2 st0 progs sched). Qed.
+Print Assumptions C43_split_generic.
+
+(* ... hence the seven lock-based operators of the current tree *)
+Theorem C43_split_operators : forall progs sched,
+  split_statement (run2_zip true progs sched) /\
+  split_statement (run2_cl true progs sched) /\
+  split_statement (run2_wl true progs sched) /\
+  split_statement (run2_ma true progs sched) /\
+  (forall m, split_statement (run2_mm true m progs sched)) /\
+  (forall count, split_statement (run2_wc count progs sched)) /\
+  (forall span shift, split_statement (run2_wt span shift progs sched)).
+Proof. exact split_operators. Qed.
+Print Assumptions C43_split_operators.
+
+(* ... and amb (exclusive because only the chosen side forwards) *)
+Theorem C43_split_amb : forall progs sched,
+  let c := run2_am progs sched in
+  gram (users (untag (c_log c))) = true /\ excl2 c /\
+  (forall tid t, nth_error (c_ths c) tid = Some t -> tinside2 t = true -> am_choice (g_st (c_sh c)) = Some tid).
+Proof. exact split_amb. Qed.
+Print Assumptions C43_split_amb.
+
+(* the conjunct now DISCRIMINATES: the code before the fixes delivers Err then Next, or Done twice *)
+Theorem C43_split_old_code_refuted :
+  gram (users2 (run2_zip false [[SErr]; [SDone]] [0;0;1;1;1;1;0;1])) = false /\
+  gram (users2 (run2_zip false [[SNext; SDone]; [SNext; SNext]] [0;0;0;0;0;1;1;1;1;1;0;0;1;1;1;1;0;1])) = false /\
+  gram (users2 (run2_cl false [[SNext; SErr]; [SNext]] [0;0;1;1;1;0;0;0;1])) = false /\
+  gram (users2 (run2_wl false [[SNext; SDone]; [SNext; SErr]] [1;1;0;0;0;1;1;1;0])) = false /\
+  gram (users2 (run2_ma false [[SNext; SErr]; [SNext]] [0;0;0;1;1;1;0;0;0;1])) = false /\
+  gram (users2 (run2_mm false 1 [[SNext; SErr]; [SNext]] [0;0;0;0;0;1;1;1;0;0;0;1])) = false.
+Proof. exact split_old_code_refuted. Qed.
+Print Assumptions C43_split_old_code_refuted.
+
+Example C43_witness_split_old_combine_latest :
+  c_log (run2_cl false [[SNext; SErr]; [SNext]] [0;0;1;1;1;0;0;0;1])
+  = [(1, CEnter DNext); (0, CEnter DErr); (0, CUser DErr); (0, CExit DErr); (1, CUser DNext); (1, CExit DNext)].
+Proof. vm_compute. reflexivity. Qed.
+
+(* the same schedule on the current code: thread 1 sits between its read and its callback while
+   thread 0 (the error) waits for the lock *)
+Example C43_witness_split_contended :
+  map t_cur (c_ths (run2_cl true [[SNext; SErr]; [SNext]] [0;0;1;1;1;0;0;0])) = [Some (Q (PA 2 0)); Some (QW true DNext 1)] /\
+  c_log (run2_cl true [[SNext; SErr]; [SNext]] [0;0;1;1;1;0;0;0;1;0;0;0;0])
+  = [(1, CEnter DNext); (1, CUser DNext); (1, CExit DNext); (0, CEnter DErr); (0, CUser DErr); (0, CExit DErr)].
+Proof. vm_compute. split; reflexivity. Qed.
